@@ -49,7 +49,7 @@ fn native_misc_registry0() -> Vec<(&'static str, fn(&mut crate::src::EnumSrc))> 
         ("nintro_library", (|s: &mut crate::src::EnumSrc| crate::native_misc::intro_library(s)) as fn(&mut crate::src::EnumSrc)),
         // n(nintro_navigate, "C17", "Introspector::do_introspect; Introspector::impl_get_frames; IntrospectionResult::total_index; IntrospectionResult::total_len", "3 objects, sequences of <= 3 commands (first 2,000,000 combinations in enumeration order) (Nothing, Up, SelectNth, ExpandElement) with depths/indices from {0,1,2,5,usize::MAX}, with and without child limit");
         ("nintro_navigate", (|s: &mut crate::src::EnumSrc| crate::native_misc::intro_navigate(s)) as fn(&mut crate::src::EnumSrc)),
-        // n(nabi_pairs, "C09,C10,C11", "AbiConnection::new_internal; AbiConnection::analyze_and_create; arg_layout_compatible; abi_entry_light; savefile_abi_exportable output (caller and callee trampolines, closure wrappers, boxed-closure wrappers); parse_return_value_impl", "one interface in versions 0 and 1 (struct argument and return type gaining a field), 4 caller/implementation combinations x 7 methods x small-scope argument values");
+        // n(nabi_pairs, "C09,C10,C11", "AbiConnection::new_internal; AbiConnection::analyze_and_create; arg_layout_compatible; abi_entry_light; savefile_abi_exportable output (caller and callee trampolines, closure wrappers, boxed-closure wrappers); parse_return_value_impl", "one interface in versions 0 and 1 (struct argument and return type gaining a field), 4 caller/implementation combinations x 8 methods (versioned fields first on the wire, so a wrong-version encoding shifts the retained fields) x small-scope argument values");
         ("nabi_pairs", (|s: &mut crate::src::EnumSrc| crate::native_abi::abi_pairs(s)) as fn(&mut crate::src::EnumSrc)),
         // n(nabi_wide, "C09,C11", "AbiConnection::analyze_and_create (by-reference mask); savefile_abi_exportable output for a 40-argument method", "one 40-argument method; one argument and one string length vary");
         ("nabi_wide", (|s: &mut crate::src::EnumSrc| crate::native_abi::abi_wide(s)) as fn(&mut crate::src::EnumSrc)),
